@@ -23,4 +23,8 @@ Laws == n > 0 => LET v == Linspace(lo, hi, n) IN
    /\ n > 1 => SumQ(v) = QN(n * (lo + hi), 2)
 Emit == n > 0 => PrintT(ToJson([lo |-> lo, hi |-> hi, n |-> n, lin |-> Linspace(lo, hi, n), sum |-> SumQ(Linspace(lo, hi, n))]))
 EndsDef == {-7, -1, 0, 2, 3, 10}
+\* lengths: small ones, and the sizes around powers of two and up to the statement's 200 where a blocked or parallel
+\* implementation would change regime
+NumsQuick == {1, 2, 3, 4, 5, 8, 11, 31, 32, 33, 63, 64, 65, 100, 127, 128, 129, 130, 131, 199, 200}
+NumsThorough == (1..260) \cup {511, 512, 513, 1000, 1023, 1025}
 =============================================================================
